@@ -43,8 +43,23 @@ def _s6_polars_stacking(program, res):
             for st in top:
                 if stack_stmt is not None and st.lineno < stack_stmt.lineno and isinstance(st, (ast.For, ast.If)):
                     for iff in ast.walk(st):
-                        if isinstance(iff, ast.If) and "is_numeric" in unparse(iff.test) and any(isinstance(r_, ast.Raise) for b_ in iff.body for r_ in ast.walk(b_)):
-                            guard = iff
+                        if isinstance(iff, ast.If) and any(isinstance(r_, ast.Raise) for b_ in iff.body for r_ in ast.walk(b_)):
+                            # the refusal is decided from the column types of the frames to be stacked (their schema / dtypes), directly or
+                            # through locals and local helpers of the method
+                            text, frontier, seen_ = unparse(iff.test), {x.id for x in ast.walk(iff.test) if isinstance(x, ast.Name)}, set()
+                            while frontier:
+                                nm = frontier.pop()
+                                if nm in seen_:
+                                    continue
+                                seen_.add(nm)
+                                for a_ in ast.walk(m.node):
+                                    if isinstance(a_, ast.Assign) and any(isinstance(t_, ast.Name) and t_.id == nm for t_ in a_.targets):
+                                        text += " " + unparse(a_.value)
+                                        frontier |= {x.id for x in ast.walk(a_.value) if isinstance(x, ast.Name)}
+                                    elif isinstance(a_, ast.FunctionDef) and a_.name == nm and a_ is not m.node:
+                                        text += " " + unparse(a_)
+                            if (".schema" in text or ".dtype" in text) and ("is_numeric" in text or "base_type" in text or "is_temporal" in text):
+                                guard = iff
             if stack_stmt is None:
                 raise AnalysisError("PolarsModel.rowrecs_to_blocks: the stacking is not a top-level statement of the method any more")
             if guard is not None:
@@ -172,6 +187,16 @@ def sql_clause_terms_rule(program, res, rule="C17-S11"):
                             f"keys: the query ends in `GROUP BY ORDER BY` (syntax error) where Pandas and Polars return the single record", st)
         if n == 0:
             res.ok(rule, f"{mname}: every GROUP BY / ORDER BY has a term that does not depend on the record keys alone")
+        # an aggregate select list without GROUP BY returns one row over no rows: the key-less case needs a HAVING (or an outer filter)
+        aggregates = any(isinstance(c_, ast.Constant) and isinstance(c_.value, str) and "MAX(" in c_.value.upper() for c_ in ast.walk(m.node))
+        if aggregates and maybe_empty:
+            having = any(isinstance(c_, ast.Constant) and isinstance(c_.value, str) and "HAVING" in c_.value.upper() for c_ in ast.walk(m.node))
+            if having:
+                res.ok(rule, f"{mname}: without record keys the aggregate row is returned only when there are rows (HAVING)")
+            else:
+                res.fail_at(rule, m, f"keyless-aggregate-over-no-rows:{mname}",
+                            f"{mname} aggregates (MAX(CASE …)) and groups by the record keys; without record keys there is no GROUP BY, and an aggregate over an empty table is "
+                            f"one all-NULL row — Pandas and Polars return no record (a count above it: 1 vs 0)")
 
 
 def run(program, res, tier):
